@@ -105,6 +105,53 @@ def run(ctx):
                         if not np.isfinite(tab[p, k]) or abs(tab[p, k] - ref) > 1e-8 * max(1.0, abs(ref)):
                             ctx.violation("monitor", "table entry %r for NW=%d, log-det %.0f is not the finite log-density %r" % (float(tab[p, k]), n, tl, ref),
                                           {"n": n, "logdet": tl, "seed": ctx.seed})
+        # the per-point values of the RESULT (main_loop._compute_log_likelihood_by_cluster) on fitted states whose MRFs are
+        # ill-conditioned (sensors in very different units: eigenvalues spread over up to 12 orders of magnitude) or have
+        # determinants outside the double range: one value per labelled point, the log-density under the point's own cluster
+        from fast_ticc import main_loop as ml
+        for j in range(ctx.budget(10, 40)):
+            n = [2, 3, 6, 40][j % 4]
+            Wc = 1 if n in (3,) else 2
+            spread = [0.0, 4.0, 9.0, 12.0][j % 4]
+            ua = arguments.UserArguments(sparsity_weight=0.1, iteration_limit=1, label_switching_cost=1.0, min_cluster_size=1,
+                                         min_meaningful_covariance=0, num_clusters=3, num_processors=1, biased_covariance=False, window_size=Wc)
+            qmat, _ = np.linalg.qr(rng.normal(size=(n, n)))
+            ev = 10.0 ** (np.linspace(-spread / 2, spread / 2, n) + (rng.uniform(-2.5, 2.5) if j % 5 else 0.0))
+            thetas = []
+            for k in range(3):
+                th = (qmat * (ev * (1.0 + 0.3 * k))) @ qmat.T
+                thetas.append((th + th.T) / 2)
+            sd = 1.0 / np.sqrt(ev)
+            mus = [(qmat @ (rng.normal(size=n) * sd)) for _ in range(3)]
+            npts = 9
+            labels = [0, 0, 0, 1, 1, 2, 2, 2, 0][:npts] if j % 3 else [0, 0, 0, 0, 1, 1, 1, 1, 1]
+            data = np.array([mus[l] + qmat @ (rng.normal(size=n) * sd) for l in labels])
+            ms = model_state.ModelState.empty_model(ua, data)
+            ms.point_labels = list(labels)
+            for k, c in enumerate(ms.clusters):
+                c.train_inverse = thetas[k]
+                c.inverse_covariance = thetas[k]
+                c.computed_covariance = np.linalg.inv(thetas[k])
+                c.empirical_covariance = c.computed_covariance
+                c.stacked_data_mean = mus[k]
+                c.log_determinant = float(np.linalg.slogdet(thetas[k])[1])
+            case = {"NW": n, "eigenvalue_spread_decades": spread, "labels": labels, "seed": ctx.seed, "index": j}
+            ctx.count("result-values")
+            ctx.mark_nontrivial(("rv", j))
+            with ctx.guard("_compute_log_likelihood_by_cluster", case):
+                per = ml._compute_log_likelihood_by_cluster(data, ms)
+                if len(per) != 3 or [len(x) for x in per] != [labels.count(k) for k in range(3)]:
+                    ctx.violation("monitor", "per-cluster value lists have lengths %s for cluster sizes %s" % ([len(x) for x in per], [labels.count(k) for k in range(3)]), {"case": case})
+                    continue
+                for k in range(3):
+                    pts = [i for i, l in enumerate(labels) if l == k]
+                    for v, pidx in zip(per[k], pts):
+                        ref = independent_logpdf(data[pidx], mus[k], thetas[k])
+                        qq = float((data[pidx] - mus[k]) @ thetas[k] @ (data[pidx] - mus[k]))
+                        if not np.isfinite(v) or abs(float(v) - ref) > 1e-8 * max(1.0, abs(ref)) + 1e-6 * abs(qq):
+                            ctx.violation("monitor", "reported value %r of point %d is not its log-density %r under its own cluster %d (MRF eigenvalues over %g decades)"
+                                          % (float(v), pidx, ref, k, spread), {"case": case})
+                            break
         # execution modes
         res = {m: core.run_worker(ctx, "vcheck.props.c05:kernel_values", payload[:40], mode=m, tag="ll") for m in ("interp", "jit")}
         if all(r["ok"] for r in res.values()):
@@ -134,7 +181,10 @@ def run(ctx):
         runs.append(e2e.traced_run({"N": 2, "W": 2, "K": 2, "beta": 1.0, "lengths": [30], "limit": 2, "m": 1, "data_seed": 1, "rng_seed": 1, "joint": False}))
         # sensor readings with a large constant offset (e.g. time stamps, absolute pressures)
         runs += e2e.cached_runs(ctx, [{"N": 2, "W": 2, "K": 2, "beta": 2.0, "lam": 0.11, "limit": 3, "m": 2, "biased": False, "eps": 0, "joint": False,
-                                       "lengths": [60], "data_seed": 31 + j, "rng_seed": 31 + j, "regimes": 2, "offset": off} for j, off in enumerate([1e5, 1e7])], "c05")
+                                       "lengths": [60], "data_seed": 31 + j, "rng_seed": 31 + j, "regimes": 2, "offset": off} for j, off in enumerate([1e5, 1e7])] +
+                               [{"N": 3, "W": [1, 2][j], "K": 2, "beta": 2.0, "lam": 0.11, "limit": 3, "m": 2, "biased": False, "eps": 0, "joint": False,
+                                 "lengths": [80], "data_seed": 41 + j, "rng_seed": 41 + j, "regimes": 2, "col_scales": sc}
+                                for j, sc in enumerate([[1e-2, 1.0, 1e5], [1e4, 1e-3, 1.0]])], "c05")
         from fast_ticc import data_preparation as dp
         for r in runs:
             ctx.count("run")
